@@ -4,6 +4,8 @@ import UtilModel.Keyed.ObsC07
 import UtilModel.Keyed.ObsC06f
 import UtilModel.Keyed.ObsC07c
 import UtilModel.Keyed.ObsC07b2
+import UtilModel.Keyed.C07Cur
+import UtilModel.Keyed.ObsC07r6
 /-!
 # keyed — property theorems (C06, C07)
 
@@ -177,6 +179,31 @@ theorem looked_at_ctx_is_not_cancelled (s : St) (k : Nat) (ks : List Nat) (b : B
     (preOp s (.syncKeys ks b)).ctx ≠ some 0 ∧ (preOp s (.resetRoutine k cs)).ctx ≠ some 0 ∧
     (preOp s (.restartRoutine k cs)).ctx ≠ some 0 :=
   ⟨dropDead_ctx s, dropDead_ctx s, dropDead_ctx s⟩
+
+/-- **C07 (who is current).** In every reachable state an instance whose context is not cancelled is the
+*current* instance of the record stored under its key: the record belongs to the instance's generation,
+`r.ctx` is this instance's context (`r.cur = some i`) and the instance was started for this very record
+(`r.id = x.rid`) — so its exit is the one the bookkeeping records and, after an error, retries
+(`Own` + `RC`, `kr_reachable`). -/
+theorem live_is_current (es : List Ev) (s : St) (hr : model.run model.init es = some s)
+    (g i : Nat) (y : G) (x : Inst) (hy : s.gens[g]? = some y) (hx : y.insts[i]? = some x)
+    (hc : x.cancelled = false) :
+    ∃ r, s.key y.key = some r ∧ r.gen = g ∧ r.cur = some i ∧ r.id = x.rid := by
+  obtain ⟨r, hk, hg, hco⟩ := (inv3_reachable s ⟨es, hr⟩).own g y i x hy hx hc
+  obtain ⟨h1, h2⟩ := (kr_reachable s ⟨es, hr⟩).rc y.key r i hk hco
+  exact ⟨r, hk, hg, h1, (h2 y x (by rw [hg]; exact hy) hx).symm⟩
+
+/-- **C07 (retry), observable form.** Every observable trace of the model is accepted by the executable
+monitor `monC07r` (= `monC06o` + a list of owed retries): when the backoff object reports that the exit
+bookkeeping armed the retry timer of key `k` (`env boff k armed`; no call in progress, a context known to be
+set, `k` known to be in the set) and afterwards no call other than `GetKey`/`GetKeys`/`GetKeysWithData` is
+invoked and the root context is not cancelled, a routine function of `k` has been entered again by the
+quiescence point that follows the end of the epoch. Proof: the owed retry is in one of two stages — timer armed
+and not fired, or fired with the new instance not yet in its function — each of which contradicts quiescence
+once the epoch has ended (`stage_step`, `stage_not_quiet`). The same monitor runs on the histories of the
+real code. -/
+theorem C07_obs_retry (es : List Ev) (s : St) (hr : model.run model.init es = some s) :
+    monC07r.accepts (es.filterMap model.obs) = true := C07r_obs es s hr
 
 /-- **C07 (removal cancels), observable form.** Every observable trace of the model is accepted by the
 executable monitor `monC07c` (= `monC07a` × `monC06o` + one check): whenever no call is in progress and the
